@@ -8,19 +8,27 @@ Open Scope N_scope.
 
 (* date = day number, date-time = second number, both in decimal *)
 Definition toy_strf (k t : N) : comp := if k =? 0 then dec (t / 86400) else dec t.
-Definition toy_rtm_min (t : N) : N := (t / 60 + 1) * 60.             (* tm_min + 1, tm_sec = 0, GMT *)
-Definition toy_rtm_day (hm : N) (t : N) : N := (t / 86400) * 86400 + hm.   (* today's HH:MM, GMT; hm < 86400 *)
+Definition toy_rtm_min (k t : N) : N := (t / 60 + 1) * 60.           (* tm_min + 1, tm_sec = 0, GMT *)
+(* today's HH:MM (k = 0, 1) / tomorrow's HH:MM (k = 2), GMT; hm < 86400 *)
+Definition toy_rtm_day (hm : N) (k t : N) : N :=
+  if k =? 2 then (t / 86400 + 1) * 86400 + hm else (t / 86400) * 86400 + hm.
 
 Lemma toy_strf_nonempty : forall k t, toy_strf k t <> [].
 Proof. intros k t. unfold toy_strf. destruct (k =? 0); apply dec_nonempty. Qed.
 
 Definition S := NS.
-Definition mkcfg (pf : bool) (sch : scheme) (fr : freq) (iv lim mb : N) (ov : bool) : cfg :=
-  {| c_prefix := pf; c_scheme := sch; c_freq := fr; c_interval := iv; c_limit := lim; c_maxb := mb; c_over := ov;
+(* pf / ca / p24: the variant flags (true = the earlier, defective behaviour: D7 / D10 / C15-daily-dst) *)
+Definition mkcfgv (pf ca p24 gmt : bool) (sch : scheme) (fr : freq) (iv lim mb : N) (ov : bool) : cfg :=
+  {| c_prefix := pf; c_cntacct := ca; c_plus24 := p24; c_gmt := gmt;
+     c_scheme := sch; c_freq := fr; c_interval := iv; c_limit := lim; c_maxb := mb; c_over := ov;
      c_stem := [114; 111; 116]; c_ext := [108; 111; 103] |}.
+(* the repaired code (but for pf), GMT *)
+Definition mkcfg (pf : bool) := mkcfgv pf false false true.
 
-(* ---------- D10: RotatingJsonFileSink counts log_statement.size() (0), not the bytes written ---------- *)
-Definition json_cfg := mkcfg false SIndex FDisabled 0 1024 4294967295 true.
+(* ---------- D10: RotatingJsonFileSink counted log_statement.size() (0), not the bytes written ----------
+   json_cfg: the variant before the repair (c_cntacct = true); json_cfg_fixed: the repaired code *)
+Definition json_cfg := mkcfgv false true false true SIndex FDisabled 0 1024 4294967295 true.
+Definition json_cfg_fixed := mkcfg false SIndex FDisabled 0 1024 4294967295 true.
 Definition json_ops := map (fun i => Write i (i * S) 200 0) [1; 2; 3; 4; 5; 6; 7].
 Definition json_final := run0 toy_strf toy_rtm_min json_cfg true true 0 [] json_ops.
 
@@ -44,7 +52,19 @@ Proof.
       rewrite X in E. apply app_inj_tail in E as [E _]. subst pre. vm_compute in Z. discriminate.
 Qed.
 
-(* the same ops with cnt = wr respect the limit (the premise of rot_limit is what the JSON sink breaks) *)
+(* the repaired code on the very same ops (cnt = 0): no premise on the writes is needed, the sixth
+   statement rotates (5 * 200 + 200 > 1024): rot.1.log holds 1000 bytes, the live file 400 *)
+Example rot_json_fixed_example :
+  Forall (ok_op json_cfg_fixed) json_ops /\
+  map (fun e => (fst e, fsize (snd e))) (fs (run0 toy_strf toy_rtm_min json_cfg_fixed true true 0 [] json_ops)) =
+  [([[114; 111; 116]; [49]; [108; 111; 103]], 1000); ([[114; 111; 116]; [108; 111; 103]], 400)].
+Proof.
+  split; [|vm_compute; reflexivity].
+  apply Forall_forall. intros o Ho. unfold json_ops in Ho. apply in_map_iff in Ho as [i [E _]]. subst o.
+  apply ok_op_write_fixed. reflexivity.
+Qed.
+
+(* the earlier variant with cnt = wr respects the limit (the premise of rot_limit that the JSON sink broke) *)
 Example rot_limit_nonvacuous :
   let ops := map (fun i => Write i (i * S) 200 200) [1; 2; 3; 4; 5; 6; 7] in
   Forall (ok_op json_cfg) ops /\
@@ -82,28 +102,38 @@ Example sched_fixed_separates :
 Proof. vm_compute. reflexivity. Qed.
 
 (* ---------- the premises of the C15 theorems are satisfiable ---------- *)
-Lemma toy_rtm_min_later : forall t, t < toy_rtm_min t.
+Lemma toy_rtm_min_later : forall k t, t < toy_rtm_min k t.
 Proof.
-  intro t. unfold toy_rtm_min.
+  intros k t. unfold toy_rtm_min.
   pose proof (N.div_mod t 60 ltac:(lia)). pose proof (N.mod_lt t 60 ltac:(lia)). lia.
 Qed.
 
 Example C15_premises_minutely :
   NA_ok toy_rtm_min (drift_cfg false) 0 (grid_pt toy_rtm_min (drift_cfg false) 0) /\
-  INIT_ok toy_rtm_min 0 (grid_pt toy_rtm_min (drift_cfg false) 0) /\ mono 0 drift_ops.
+  INIT_ok toy_rtm_min (drift_cfg false) 0 (grid_pt toy_rtm_min (drift_cfg false) 0) /\ mono 0 drift_ops.
 Proof.
   split; [|split].
   - apply NA_hourly_minutely; [reflexivity | right; reflexivity | reflexivity].
-  - apply INIT_hourly_minutely. apply toy_rtm_min_later.
+  - apply INIT_hourly_minutely; [right; reflexivity | apply toy_rtm_min_later].
   - cbn [mono drift_ops]. vm_compute. intuition discriminate.
 Qed.
 
-(* GMT daily rotation at hm seconds after midnight satisfies the grid property *)
+(* GMT daily rotation at hm seconds after midnight satisfies the grid property: timegm is arithmetic.
+   Holds for every variant of the code (the repaired one asks for HH:MM with tm_isdst = -1, which timegm
+   ignores, and in GMT adds 24 h like the earlier one). *)
 Definition day_pt (hm : N) (g : N) : Prop := exists d, g = (d * 86400 + hm) * NS.
 
-Lemma toy_daily_grid : forall hm start, hm < 86400 -> grid_property (toy_rtm_day hm) start (day_pt hm).
+Lemma daily_grid_gmt : forall rtm c hm start, hm < 86400 -> c_gmt c = true ->
+  (forall k t, k <> 2 -> rtm k t = t / 86400 * 86400 + hm) ->
+  grid_property rtm c start (day_pt hm).
 Proof.
-  intros hm start Hh t _. unfold init_tp, toy_rtm_day.
+  intros rtm c hm start Hh Hg HR t _.
+  assert (IT : init_tp rtm c t =
+               (if t / NS <? t / NS / 86400 * 86400 + hm then t / NS / 86400 * 86400 + hm
+                else t / NS / 86400 * 86400 + hm + 86400) * NS).
+  { unfold init_tp. rewrite Hg. rewrite !HR by discriminate.
+    destruct (dst_fixed c); auto. destruct (_ <? _); auto. }
+  rewrite IT. clear IT.
   pose proof (N.div_mod t NS ltac:(unfold NS; lia)) as D1. pose proof (N.mod_lt t NS ltac:(unfold NS; lia)) as M1.
   set (now := t / NS) in *. set (fr := t mod NS) in *.
   pose proof (N.div_mod now 86400 ltac:(lia)) as D2. pose proof (N.mod_lt now 86400 ltac:(lia)) as M2.
@@ -111,15 +141,35 @@ Proof.
   assert (NSv : NS = 1000000000) by reflexivity.
   destruct (now <? day * 86400 + hm) eqn:C.
   - apply N.ltb_lt in C. split; [nia|]. split; [exists day; reflexivity|].
-    intros g [d Eg] Hg. subst g.
+    intros g [d Eg] Hgt. subst g.
     assert (d * 86400 + hm > now) by nia.
     assert (day <= d). { destruct (N.le_gt_cases day d); auto. exfalso. assert (d + 1 <= day) by lia. nia. }
     nia.
   - apply N.ltb_ge in C. split; [nia|]. split; [exists (day + 1); f_equal; lia|].
-    intros g [d Eg] Hg. subst g.
+    intros g [d Eg] Hgt. subst g.
     assert (d * 86400 + hm > now) by nia.
     assert (day + 1 <= d). { destruct (N.le_gt_cases (day + 1) d); auto. exfalso. assert (d <= day) by lia. nia. }
     nia.
+Qed.
+
+Lemma toy_daily_grid : forall c hm start, hm < 86400 -> c_gmt c = true ->
+  grid_property (toy_rtm_day hm) c start (day_pt hm).
+Proof.
+  intros c hm start Hh Hg. apply daily_grid_gmt; auto.
+  intros k t Hk. unfold toy_rtm_day. destruct (k =? 2) eqn:E; auto. apply N.eqb_eq in E. contradiction.
+Qed.
+
+(* the premises of daily_grid_fixed (local time, the repaired code) are satisfiable: the GMT calendar *)
+Example daily_fixed_premises_satisfiable : forall hm start, hm < 86400 ->
+  let day := fun t => t / 86400 in
+  let at_hm := fun d => d * 86400 + hm in
+  (forall t1 t2, t1 <= t2 -> day t1 <= day t2) /\ (forall d, day (at_hm d) = d) /\
+  (forall t, start / NS <= t -> toy_rtm_day hm 1 t = at_hm (day t)) /\
+  (forall t, start / NS <= t -> toy_rtm_day hm 2 t = at_hm (day t + 1)).
+Proof.
+  intros hm start Hh day at_hm. unfold day, at_hm. repeat split.
+  - intros t1 t2 H. apply N.div_le_mono; lia.
+  - intro d. rewrite N.div_add_l by lia. rewrite N.div_small by lia. lia.
 Qed.
 
 (* ---------- C14: a run with rotations, a deletion and restarts satisfies the premises ---------- *)
@@ -141,7 +191,7 @@ Proof.
     + intros p [mid E] NP. subst p. reflexivity.
     + repeat constructor. intros [].
     + discriminate.
-  - repeat (apply Forall_cons; [first [reflexivity | split; [reflexivity | first [left; reflexivity | right; reflexivity]]] |]); apply Forall_nil.
+  - repeat (apply Forall_cons; [first [intros _; reflexivity | split; [reflexivity | first [left; reflexivity | right; reflexivity]]] |]); apply Forall_nil.
   - vm_compute. reflexivity.
   - vm_compute. reflexivity.
 Qed.
@@ -159,24 +209,35 @@ Lemma rot_date_backwards_refuted_lem :
   [([], 0, [4]); ([48], 0, [3]); ([49], 0, [1; 2])].
 Proof. split; [repeat constructor | vm_compute; reflexivity]. Qed.
 
-(* ---------- open finding C15-daily-dst: the grid property fails for the real libc on DST days ----------
-   Europe/Berlin, daily 12:00.  What glibc returned (harness/rot.cpp, corpus/C15/daily_dst_fall_back.case)
-   for mktime(localtime(t) with 12:00:00): t = 2023-10-28 12:00:00 CEST (1698487200) -> 1698487200.
-   The true 12:00 instants of that zone around it: 1698487200 (28th, CEST) and 1698577200 (29th, CET).
-   The model's (= the code's) next point after t is 1698487200 + 86400 = 1698573600 = 2023-10-29 11:00 CET. *)
-Definition berlin_rtm (t : N) : N :=
-  if t =? 1698487200 then 1698487200 else if t =? 1698573600 then 1698577200 else 0.
+(* ---------- C15-daily-dst: the variant before the repair breaks the grid property on DST days ----------
+   Europe/Berlin, daily 12:00, local time.  What glibc returned (harness/rot.cpp,
+   corpus/C15/daily_dst_fall_back.case) for t = 2023-10-28 12:00:00 CEST (1698487200):
+     mktime(localtime(t) with 12:00:00, tm_isdst kept)  = 1698487200      (rtm 0)
+     the same with tm_isdst = -1                        = 1698487200      (rtm 1)
+     then tm_mday + 1, 12:00:00, tm_isdst = -1          = 1698577200      (rtm 2: 2023-10-29 12:00 CET)
+   The 12:00 instants of that zone around it: 1698487200 (28th, CEST) and 1698577200 (29th, CET).
+   Before the repair the next point after t is 1698487200 + 86400 = 1698573600 = 2023-10-29 11:00 CET;
+   the repaired code takes 1698577200. *)
+Definition berlin_rtm (k t : N) : N :=
+  if t =? 1698487200 then (if k =? 2 then 1698577200 else 1698487200)
+  else if t =? 1698573600 then 1698577200 else 0.
 Definition berlin_noon (g : N) : Prop := g = 1698487200 * NS \/ g = 1698577200 * NS.
+(* p24 = true: the variant before the repair *)
+Definition berlin_cfg (p24 : bool) := mkcfgv false false p24 false SIndex FDaily 0 0 4294967295 true.
 
 Lemma daily_dst_grid_refuted_lem :
-  init_tp berlin_rtm (1698487200 * NS) = 1698573600 * NS /\
+  init_tp berlin_rtm (berlin_cfg true) (1698487200 * NS) = 1698573600 * NS /\
   ~ berlin_noon (1698573600 * NS) /\
-  ~ grid_property berlin_rtm (1698487200 * NS) berlin_noon.
+  ~ grid_property berlin_rtm (berlin_cfg true) (1698487200 * NS) berlin_noon.
 Proof.
   split; [vm_compute; reflexivity|]. split.
   - intros [H|H]; vm_compute in H; discriminate.
   - intro G. destruct (G (1698487200 * NS) (N.le_refl _)) as [_ [[H|H] _]]; vm_compute in H; discriminate.
 Qed.
+
+Example daily_dst_fixed_example :
+  init_tp berlin_rtm (berlin_cfg false) (1698487200 * NS) = 1698577200 * NS /\ berlin_noon (1698577200 * NS).
+Proof. split; [vm_compute; reflexivity | right; reflexivity]. Qed.
 
 (* ok_size read with positive statement sizes: within the limit or a single statement *)
 Lemma ok_size_single : forall c cs, (forall a, In a cs -> 0 < swr a) -> ok_size c cs ->
